@@ -66,6 +66,8 @@ func checkC03(r *core.Run) {
 	r.Assume(aCG)
 	r.Assume(aGen)
 	ruleD3(r)
+	r.Rule("D3-startup: app.New (run at every process start) reaches no committed-store write and creates no out-of-block sdk.Context")
+	ruleStartupWrites(r)
 	r.Floor("functions_in_scope", len(e5Scope(r)), 150)
 }
 
